@@ -167,6 +167,7 @@ fn gen_spec(rng: &mut Rng, screen: &mut Screen) -> RunSpec {
     k.inert_pct = *rng.pick(&[30, 50, 70]);
     k.min_eligible = rng.range(1, 3);
     k.max_files_per_dir = k.max_files_per_dir.max(2);
+    k.blank_files = rng.chance(1, 10);
     gen::gen_tree(rng, screen, &mut world, "/w/c", &k);
     // the inert file may even carry the report's own name, in the analysed directory itself
     if rng.chance(1, 4) {
@@ -177,15 +178,14 @@ fn gen_spec(rng: &mut Rng, screen: &mut Screen) -> RunSpec {
     let place = *rng.pick(&[gen::CwdPlace::Parent, gen::CwdPlace::Parent, gen::CwdPlace::Equal, gen::CwdPlace::Child, gen::CwdPlace::Unrelated]);
     let dir = gen::place_cwd(rng, &mut world, "/w/c", place);
     let (schedule, _, _) = gen::gen_schedule(rng, &world);
+    let (mut vul, mut opt, mut qa) = (gen::gen_pats(rng, Cat::Vul), gen::gen_pats(rng, Cat::Opt), gen::gen_pats(rng, Cat::Qa));
+    for l in [&mut vul, &mut opt, &mut qa] {
+        gen::keep_blank_tolerant(&world, l);
+    }
     RunSpec {
         world,
         schedule,
-        mode: Mode::Lib {
-            dir,
-            vul: gen::gen_pats(rng, Cat::Vul),
-            opt: gen::gen_pats(rng, Cat::Opt),
-            qa: gen::gen_pats(rng, Cat::Qa),
-        },
+        mode: Mode::Lib { dir, vul, opt, qa },
         render: rng.chance(1, 2),
     }
 }
@@ -293,6 +293,10 @@ impl Property for C16 {
         r.count("inert_files_present", j.inert_present);
         r.count("inert_files_read_by_solstat", j.inert_read);
         r.probe("poisoned_inert_file_present", j.poison_present > 0);
+        r.probe(
+            "blank_eligible_file_present",
+            spec.world.files().iter().any(|f| eligible_name(crate::world::base_name(f)) && spec.world.file(f).map_or(false, |(b, _)| gen::is_blank(b))),
+        );
         r.probe("inert_dir_name_looks_like_file", spec.world.dirs().iter().any(|d| d.ends_with(".sol")));
         r.interleavings.push(j.decisions);
         let wh = hash_str(63, &spec.world.to_json().to_string());
